@@ -3,6 +3,9 @@
    reset lines carry the model population as stored and the index metadata; proto lines one search. *)
 EXTENDS KProtoFilter, Json, IOUtils
 Rec == ndJsonDeserialize(IOEnv.TRACE)
+\* failures are also tallied (registers 21 / 22) so that the orchestrator can detect lost output lines
+Tally(r) == TLCSet(r, TLCGet(r) + 1)
+ASSUME TLCSet(21, 0) /\ TLCSet(22, 0)
 VARIABLES l, db, idx
 
 MkDb(r) == LET pop == r.db
@@ -24,11 +27,13 @@ JudgeProto(r, ln) ==
       wr    == IF r.kind = "ldap" THEN LdapWrapped(r.pf) ELSE ScimWrapped(r.pf)
       ans   == L2Answer(wr, db, idx, c, r.kind = "ldap")
       ansF  == L2Answer(wr, db, idx, Cfg(0, TRUE, PresAttrs(idx)), r.kind = "ldap")
-      expl(a) == IF a.rej THEN r.err # "" ELSE (r.err = "" /\ a.s = res)
+      big   == IF r.kind = "ldap" THEN LdapTooBig(r.pf) ELSE ScimTooBig(r.pf)
+      expl(a) == IF big \/ a.rej THEN r.err # "" ELSE (r.err = "" /\ a.s = res)
       l2    == expl(ans) \/ expl(ansF)
       sig   == ProtoSig(r.kind, r.pf, wr, db, idx, c) \o (IF expl(ans) THEN "/l2" ELSE "/nol2")
-  IN /\ (l1 \/ PrintT(<<"L1FAIL", "C41", ln, sig>>))
-     /\ (l2 \/ PrintT(<<"L2DRIFT", "C41", ln>>))
+  IN /\ (l1 \/ (Tally(21) /\ PrintT(<<"L1FAIL", "C41", ln, sig>>)))
+     /\ (l2 \/ (Tally(22) /\ PrintT(<<"L2DRIFT", "C41", ln>>)))
 Judge == l <= Len(Rec) => (IF Rec[l].a = "proto" THEN JudgeProto(Rec[l], l) ELSE TRUE)
-Consumed == TLCGet("stats").distinct = Len(Rec) + 1 \/ PrintT(<<"NOTCONSUMED", TLCGet("stats").distinct, Len(Rec)>>)
+Consumed == /\ PrintT(<<"SUMMARY", TLCGet(21), TLCGet(22)>>)
+            /\ (TLCGet("stats").distinct = Len(Rec) + 1 \/ PrintT(<<"NOTCONSUMED", TLCGet("stats").distinct, Len(Rec)>>))
 =============================================================================
